@@ -20,7 +20,7 @@ CLAIMS = {
          "from the real code (hook events under the global mutex + observations through OrcCode fields and the "
          "read-only walker), plus long seeded histories of real compile/take_code/free with re-execution and "
          "re-hashing of every live function, are validated by TLC against CodeMemAbs.",
-    design_ref="DESIGN.md section 6 C09",
+    design_ref="DESIGN.md sections 6 (design) and 12 (as built), C09",
     note="Bounded model (3-4 handles, 4-unit regions, <=3 regions); the allocator hooks report the allocator's own "
          "bookkeeping; byte-level integrity is observed by the harness through the public code/exec pointers.",
     technique="TLA+ spec + TLC model checking; behaviour replay into liborc; TLC trace validation against CodeMemAbs"),
@@ -31,7 +31,7 @@ CLAIMS = {
          "Api traces are validated by TLC against Trace_OrcSystem (legal-sequence guards, code/chunk ownership after "
          "every call, walker count of used chunks = chunks the specification says are held, LeakSanitizer verdict, "
          "no crash).  TLC-generated cyclic behaviours are repeated thousands of times: heap and regions must not grow.",
-    design_ref="DESIGN.md section 6 C16",
+    design_ref="DESIGN.md sections 6 (design) and 12 (as built), C16",
     note="Bounded model (2 programs, 1-2 taken codes, 4 program shapes); ASan/LSan and mallinfo2 are observers inside "
          "the replay; programs are one to twelve instructions long.",
     technique="TLA+ spec + TLC model checking; behaviour replay into liborc (ASan/LSan); TLC trace validation"),
@@ -43,7 +43,7 @@ CLAIMS = {
          "the reachable boundary programs (below/at/above each capacity), every opcode in 4-6 operand forms, heavy "
          "opcode chains and variable-count overruns are compiled for all 8 registered targets in children of the "
          "ASan/bounds build under a watchdog; every Compile event is validated against Trace_Compile.",
-    design_ref="DESIGN.md section 6 C05",
+    design_ref="DESIGN.md sections 6 (design) and 12 (as built), C05",
     note="Termination is a 20 s watchdog (normal compile: ~1 ms); non-native back ends are compiled, never executed; "
          "flag subsets other than the default are exercised by C11.",
     technique="TLA+ specs (OrcSystem, CompilerTables) + TLC; TLC-generated boundary programs compiled under sanitizers; "
@@ -54,7 +54,7 @@ CLAIMS = {
          "TLC-generated history in between (other compiles, frees, resets, take_code; edge cover of the 1-program "
          "OrcSystem graph over all 8 registered targets + seeded simulations of the 2-program model), in whatever "
          "process (placement varies), under ORC_DEBUG 0/3/6; run events must keep giving the right result.",
-    design_ref="DESIGN.md section 6 C17",
+    design_ref="DESIGN.md sections 6 (design) and 12 (as built), C17",
     note="Digests are 64-bit FNV-1a of OrcCode.code[0..code_size) and of the listing text; programs are the four "
          "shapes of OrcSystem; flags are each target's defaults.",
     technique="TLA+ spec (OrcSystem) + TLC-generated histories replayed into liborc; TLC trace validation with a "
@@ -68,7 +68,7 @@ CLAIMS = {
          "recorded traces: Trace_OrcSystem (right results on every path, backup called exactly once iff it is the "
          "entry point, native entry only with code memory, no crash or hang) and Trace_ExecMem (descriptors used only "
          "while open and closed before the call returns, failed attempts unmap what they mapped, no descriptor growth).",
-    design_ref="DESIGN.md section 6 C06",
+    design_ref="DESIGN.md sections 6 (design) and 12 (as built), C06",
     note="Faults are injected at the libc boundary of the statically linked liborc; register exhaustion as a cause "
          "of fallback is covered by C05's boundary programs; the oracle for run results is the harness's own "
          "computation of the two program shapes.",
@@ -83,7 +83,7 @@ CLAIMS = {
          "discipline, init body once, each OrcOnce initialised once and its value seen by all, right results) and "
          "Trace_CodeMem (allocator events of all threads form a history CodeMemAbs allows).  Thorough tier adds a "
          "ThreadSanitizer run of the same driver as an auxiliary observer (Race events have no action).",
-    design_ref="DESIGN.md section 6 C08",
+    design_ref="DESIGN.md sections 6 (design) and 12 (as built), C08",
     note="Exhaustive for 2 threads x 2 once objects and 3 threads x 1 (3 x 2 safety-only in the thorough tier); "
          "memory-order weakening cannot be observed in x86 executions and is decided by the model (TSan auxiliary).",
     technique="PlusCal/TLA+ spec + TLC (all interleavings, negative variants); TLC trace validation of "
@@ -96,7 +96,7 @@ CLAIMS = {
          "The states are presented to the real library through the hook ORC_VERIF_CPUID, one child each; the reported "
          "default target, executable marks, default flags and the result of compiling+running through the default "
          "path are validated by TLC against the property half of the specification.",
-    design_ref="DESIGN.md section 6 C19",
+    design_ref="DESIGN.md sections 6 (design) and 12 (as built), C19",
     note="The hook replaces CPUID leaf 1 ecx/edx, leaf 7 ebx and XCR0 as seen by the standard-flags routine on the "
          "vendor path of this host (Intel); AMD-only extended leaves are not varied.  Known finding F9b (documented "
          "variable ORC_TARGET is ignored) is reported as KNOWN-FINDING.",
@@ -110,7 +110,7 @@ CLAIMS = {
          "the ASan build with self-identifying emulation functions and emitters; TLC validates the recorded events "
          "against Trace_Registry: Find/Rule of the specification = orc_opcode_find_by_name / orc_target_get_rule, the "
          "function and emitter that really ran for a program using each name, emulated and native results right.",
-    design_ref="DESIGN.md section 6 C20",
+    design_ref="DESIGN.md sections 6 (design) and 12 (as built), C20",
     note="Target sse only; flags F1/F2 are SSE3 (present) and SSE4A (absent); at most 2 extra opcode sets and 3 extra "
          "rule sets per history (the rule-set table holds 10); application emitters delegate to built-in rules.",
     technique="TLA+ spec + TLC (all histories within bounds, seeded simulation for replay); replay into liborc; TLC "
@@ -123,7 +123,7 @@ CLAIMS = {
          "serialised, reconstructed and re-serialised by the library; TLC validates each BC event: reconstruction = "
          "Norm(original), identical bytes on the second serialisation, identical emulation results.  Agreement of "
          "the library's bytes with the specification's Encode is diagnostic only.",
-    design_ref="DESIGN.md section 6 C13",
+    design_ref="DESIGN.md sections 6 (design) and 12 (as built), C13",
     note="Variable names/type names are outside the abstract program; instructions come from 8 templates; the "
          "100-instruction boundary is C05's.  orcbytecodes.h numbering is compared with the opcode table (prefix).",
     technique="TLA+ spec (encode/decode functions) + TLC over a bounded program grammar; replay of TLC-generated "
@@ -139,7 +139,7 @@ CLAIMS = {
          "event against Trace_OrcText: the parse returned, every problem line has an error record with its number, "
          "program/variable/instruction counts are the specification's.  Arbitrary bytes are held to the weak "
          "contract only (returns, no sanitizer report, programs compile-or-fail and free).",
-    design_ref="DESIGN.md section 6 C14",
+    design_ref="DESIGN.md sections 6 (design) and 12 (as built), C14",
     note="Formatting variations exclude a blank before a comma (an empty token for this tokenizer).  The weak "
          "contract on random bytes is an exploration inside the check, not a model-checked claim.",
     technique="TLA+ spec of the parser as a total step function + TLC; TLC-enumerated files replayed through "
@@ -151,7 +151,7 @@ CLAIMS = {
          "spellings, then parsed.  TLC validates each Parse event against Trace_TextApi: one program, bytecode of the "
          "parsed program = bytecode of the API twin, and Bytecode!Decode of those bytes = the abstract program the "
          "text was printed from (nothing dropped, reordered or resized).",
-    design_ref="DESIGN.md section 6 C15",
+    design_ref="DESIGN.md sections 6 (design) and 12 (as built), C15",
     note="Equality is at bytecode level (variable names and type names are not part of it); programs with two "
          "declared constants of equal size and value are excluded (documented sharing); float literals are spelled "
          "from their bit patterns as integers.",
@@ -166,7 +166,7 @@ CLAIMS = {
          "operands, boundary-biased and seeded random operands for every size, the second operand as array, "
          "parameter and constant, n crossing the 16-element emulation chunks, misaligned arrays, x1/x2/x4 lane-wise, "
          "accumulators from zero, fence bytes next to the destination.",
-    design_ref="DESIGN.md section 6 C02",
+    design_ref="DESIGN.md sections 6 (design) and 12 (as built), C02",
     note="Not all 2^32 pairs of 16-bit binary opcodes (second operand sampled); float opcodes are C18's; loads with "
          "index maps are validated at program level (C01/C03).  XML-table errata (andn, ldresnear shift, cmplt text) "
          "follow opcodes.h.",
@@ -181,7 +181,7 @@ CLAIMS = {
          "TLC validates every Access event (Trace_Footprint): the hull is the specification's, no fault, canaries "
          "intact, destination equal to emulation on ordinary memory, index-map loads equal to the reference values.  "
          "X86Loop (C01) shows the head/body/tail partition stays inside 0..n-1 at design level.",
-    design_ref="DESIGN.md section 6 C03",
+    design_ref="DESIGN.md sections 6 (design) and 12 (as built), C03",
     note="Guards are page-granular and one-sided per run (both sides are run); reads inside the entitled hull but "
          "outside the entitled set are not seen.  Known findings F17b (mmx loadupib) and F18 (ldres* with start "
          "position >= 1.0 on sse/mmx) are listed in known_findings.jsonl.",
@@ -196,7 +196,7 @@ CLAIMS = {
          "emulation of the same program on the same inputs gives other bytes.  tools/generate-emulation is built "
          "against the current library and its output must equal the checked-in emulator byte for byte, which extends "
          "C02's verdict on the emulator to the OPCODE form of the generator.",
-    design_ref="DESIGN.md section 6 C04",
+    design_ref="DESIGN.md sections 6 (design) and 12 (as built), C04",
     note="Float opcodes and float/double parameters in generated C are checked by C18; index-map loads in generated C "
          "run on guarded arrays through C03's harness and Trace_Footprint; the C compiler is the installed gcc (-O2; "
          "-O0 too in the thorough tier).",
@@ -213,7 +213,7 @@ CLAIMS = {
          "seeded random operands, second operand as array / float-double parameter / constant, x1/x2, on emulation, "
          "native sse and avx and gcc-compiled generated C; TLC validates every lane (Trace_Float) and the bit-for-bit "
          "agreement with emulation on finite operands.",
-    design_ref="DESIGN.md section 6 C18",
+    design_ref="DESIGN.md sections 6 (design) and 12 (as built), C18",
     note="Known finding F20: when the exact result is below the smallest normal number but rounds up to it, hardware "
          "flush-to-zero gives 0 and emulation/C give the smallest normal (mulf, divf, muld, divd, convdf on sse/avx).  "
          "NaN payloads and NaN->int are unconstrained.  mmx has no float rules.",
@@ -230,7 +230,7 @@ CLAIMS = {
          "program is called through an assembly trampoline that seeds rbx, rbp, r12-r15 and five MXCSR settings, lays "
          "pattern words on the caller's stack, and records registers, rsp, DF, MXCSR, x87 tag word; TLC checks each Call "
          "event (Trace_Abi).",
-    design_ref="DESIGN.md section 6 C10",
+    design_ref="DESIGN.md sections 6 (design) and 12 (as built), C10",
     note="x86-64 System V only (32-bit and Windows conventions cannot be executed here); the executor structure may be "
          "written (the property exempts it); listing replay is a linear scan.",
     technique="TLA+ model of the calling-convention state (Abi/AbiGen) checked by TLC; TLC trace validation of "
@@ -244,7 +244,7 @@ CLAIMS = {
          "compiles is tokenised and TLC validates each (mnemonic, class) against the table (Trace_Isa).  The same "
          "programs are run under the subsets and validated element by element against the reference semantics "
          "(Trace_Ops / Trace_Float), so results cannot depend on the subset.",
-    design_ref="DESIGN.md section 6 C11",
+    design_ref="DESIGN.md sections 6 (design) and 12 (as built), C11",
     note="64-bit code only; a mnemonic the table does not know is a machinery error, not a verdict; multi-instruction "
          "programs are not compiled under subsets.  The quick tier runs 9 of the 28 configurations (x1 forms), the "
          "thorough tier all of them.",
@@ -261,7 +261,7 @@ CLAIMS = {
          "outputs as Prog events and TLC validates every element against the program semantics (OrcProg via "
          "Trace_Prog).  orc_memcpy / orc_memset are validated the same way as the programs copyb d1,s1 / copyb d1,p1 "
          "for lengths 0..300 and alignment pairs.",
-    design_ref="DESIGN.md section 6 C07",
+    design_ref="DESIGN.md sections 6 (design) and 12 (as built), C07",
     note="A failing orcc run or gcc compile of generated code is itself a violation.  Float opcodes inside generated code "
          "are C18's/C04's; float and double parameters are marshalled into bitwise opcodes here.  --test mode output is "
          "not executed.",
@@ -278,7 +278,7 @@ CLAIMS = {
          "validates every destination row, accumulator and fence against OrcProg.  (3) X86Loop.tla, the head/body/"
          "tail split, is model-checked for every n <= 70, start address, element and register size, unroll shift "
          "(each index exactly once, never past n, aligned body), and the stale-counter variant is refuted.",
-    design_ref="DESIGN.md section 6 C01",
+    design_ref="DESIGN.md sections 6 (design) and 12 (as built), C01",
     note="Value coverage is bounded by TLC's evaluation rate (about 10^5..10^6 elements per run); flag subsets are "
          "C11's, float opcodes C18's; rows are aligned to the element size; programs have at most 4 instructions.",
     technique="TLA+ executable semantics (OrcOps, OrcProg) evaluated by TLC on traces of native executions; TLC model "
